@@ -83,6 +83,16 @@ def stream_plan(ctx, built, ncases, name="S-plan"):
         c2 = solver._do_solve(cc2, maxw, th, alpha) if direct else solver.solve(cc2, maxw, th, alpha)
         if clusters_str(c2) != clusters_str(c):
             ctx.oracle_fail("the plan is not a deterministic function of its inputs and the RNG state", case, "plan-determinism")
+        # ... and not of what the process solved before: the same inputs in a pristine copy of the solver module (fresh module-level and default-argument state)
+        import importlib.util
+        spec = importlib.util.spec_from_file_location("syndiffix.clustering._solver_pristine", solver.__file__)
+        fresh = importlib.util.module_from_spec(spec); spec.loader.exec_module(fresh)
+        cc3 = ClusteringContext(dependency_matrix=m.copy(), entropy_1dim=ent.copy(), total_dependence_per_column=list(tpc), total_dependence=sum(tpc),
+                                anonymization_params=AnonymizationParams(), bucketization_params=BucketizationParams(), rng=random.Random(ci), main_column=main)
+        c3 = fresh._do_solve(cc3, maxw, th, alpha) if direct else fresh.solve(cc3, maxw, th, alpha)
+        if clusters_str(c3) != clusters_str(c):
+            ctx.oracle_fail(f"the plan depends on what the process solved before: {clusters_str(c)} after {ci} earlier solves, {clusters_str(c3)} in a pristine solver module",
+                            dict(case, pristine=clusters_str(c3)), "plan-history")
     # ML plans
     for ci in range(ncases):
         n = R.choice([2, 3, 5, 8, 12]); mainc = R.randrange(n)
